@@ -24,3 +24,11 @@ let () =
        show_bool ok ^ " " ^ show_z nx ^ " " ^ show_cnf cl
      | Compile.CErr e -> "error " ^ show_err e)
     | _ -> "!args")
+let show_cell = function None -> "none" | Some l -> show_nat l
+let () =
+  (* (inf1 FLAT) -> true|false : is the flat record in the fragment F1 of compile_denotes *)
+  register "inf1" (function [f] -> show_bool (CodeSem.in_f1 (Wire_flat.flat_of_sexp f)) | _ -> "!args");
+  (* (codesem-all FLAT) -> all sequences valid for code_sem, each a list of rows (per design factor) of cells *)
+  register "codesem-all" (function [f] ->
+    let fb = Wire_flat.flat_of_sexp f in
+    show_list (show_list (show_list show_cell)) (Sem.all_valid (CodeSem.code_sem fb)) | _ -> "!args")
